@@ -57,8 +57,13 @@ def gen_poly(rng, d):
     return P.mono_from_cheb(c), kind
 
 
+SESSION = []      # requests made so far in this process; the relevant ones are part of every replay
+
+
 def run_one(ctx, A, C, p, kind, eps, suc, tol, so, bits_vec, replay_base):
     drv = ctx.driver()
+    before = [c for i, c in enumerate(SESSION) if i >= len(SESSION) - 4 or (c.get("special") and i >= len(SESSION) - 60)]
+    SESSION.append({"poly": list(p), "eps": eps, "suc": suc, "tolerance": tol, "signal_operator": so, "seed_bits": bits_vec})
     try:
         with core.quiet(), P.forced_seed(bits_vec) as calls:
             ph = A.QuantumSignalProcessingPhases(list(p), eps=eps, suc=suc, signal_operator=so, tolerance=tol)
@@ -78,7 +83,7 @@ def run_one(ctx, A, C, p, kind, eps, suc, tol, so, bits_vec, replay_base):
     if out[0] != "ok":
         return out
     ph = out[1]
-    replay = dict(replay_base, seed_bits=bits_vec, phases=ph)
+    replay = dict(replay_base, seed_bits=bits_vec, phases=ph, session_before=before)
     if len(ph) != d + 1 or not P.finite(ph):
         ctx.violation("c01:shape", "returned %d phases for degree %d or non-finite phases" % (len(ph), d), replay)
         return out
@@ -131,6 +136,23 @@ def run(tier, seed):
             for bv in vecs:
                 run_one(ctx, A, C, p, kind, eps, suc, tol, so, bv, base)
             run_one(ctx, A, C, p, kind, eps, suc, tol, so, None, base)
+            # sibling request right after: the same polynomial under other settings (an answer may depend
+            # on the arguments of the call only, not on what was asked before)
+            if rng.random() < 0.5:
+                eps2, suc2, tol2 = settings(rng)
+                so2 = "Wz" if so == "Wx" else "Wx"
+                run_one(ctx, A, C, p, kind + "/sibling", eps2, suc2, tol2, so2, None,
+                        {"poly": p, "kind": kind + "/sibling", "eps": eps2, "suc": suc2, "tolerance": tol2, "signal_operator": so2})
+        # between degrees: requests outside the domain (constant, mixed parity, far too large) - may raise, must not
+        # influence what follows
+        for bad in ([float(rng.uniform(0.1, 0.9))], [float(x) for x in rng.uniform(0.1, 0.3, size=d + 1)], [3.0 * x for x in p]):
+            SESSION.append({"poly": bad, "eps": 1e-4, "suc": 1 - 1e-4, "tolerance": 1e-6, "signal_operator": "Wx", "seed_bits": None, "special": True})
+            try:
+                with core.quiet():
+                    A.QuantumSignalProcessingPhases(list(bad), signal_operator="Wx")
+                ctx.count("session:out-of-domain-request-returned")
+            except Exception:  # noqa
+                ctx.count("session:out-of-domain-request-raised")
     ctx.assumptions = [
         "which inputs the floating-point pipeline completes on is explored, not proved; every RETURNED result is judged by the proven validator",
         "cos/sin of the returned phases enclosed at %d bits (QSP/Proofs/Trig.lean)" % P.BITS,
@@ -147,6 +169,12 @@ def replay(path):
     ctx = core.Ctx(PROP, "quick", c.get("seed", 0), "translation_validation", ["C01"])
     import pyqsp.angle_sequence as A
     import pyqsp.completion as C
+    for prev in c.get("session_before", []):      # re-create the session the case was observed in
+        try:
+            with core.quiet(), P.forced_seed(prev.get("seed_bits")):
+                A.QuantumSignalProcessingPhases(list(prev["poly"]), eps=prev["eps"], suc=prev["suc"], signal_operator=prev["signal_operator"], tolerance=prev["tolerance"])
+        except Exception:  # noqa
+            pass
     out = run_one(ctx, A, C, c["poly"], c.get("kind", "?"), c["eps"], c["suc"], c["tolerance"], c["signal_operator"], c.get("seed_bits"), {})
     print("outcome:", out[0])
     for sig, what, p, _ in ctx.violations:
